@@ -14,7 +14,8 @@ RULE = ('streams from an independent encoder (harness/streams.py): payloads 1..1
         'process() call. Oracle: recv() yields the payload exactly once and only after the last frame; the emitted frames are exactly one '
         'Flow Control (reference frame from the extracted Coq Spec: ContinueToSend, configured blocksize/stmin, padding, id, prefix) '
         'after the First Frame and after every blocksize-th Consecutive Frame that does not complete the message; no error. '
-        'Every case is replayed on the extracted model. non-trivial = distinct cases')
+        'Every case is replayed on the extracted model. non-trivial = distinct cases'
+        " 30 % of the multi-frame cases run full duplex: the receiver transmits a multi-frame message of its own meanwhile (queued before or during the reception, paced by the peer's STmin); only its Flow Control frames are counted.")
 ASSUME = ['frames of one message are processed within rx_consecutive_frame_timeout of each other (gaps of 0 or 0.45 x the timeout)']
 
 
